@@ -89,8 +89,14 @@ func (c *Ctx) End() {
 	c.inCase = false
 }
 
+// Step marks the start of another unit of work inside the current case (see Evals): the watchdog's CPU budget restarts.
+func (c *Ctx) Step() { atomic.AddInt64(&c.curTick, 1) }
+
 // Evals adds n to the number of evaluations (Begin already counts one per case).
 func (c *Ctx) Evals(n int) {
+	// one more unit of work finished: the CPU budget of the watchdog is per unit (one library call sequence on one
+	// input / one history), not per case - a case may hold hundreds of units and a loaded machine inflates their sum
+	atomic.AddInt64(&c.curTick, 1)
 	c.mu.Lock()
 	c.evals += int64(n)
 	c.mu.Unlock()
